@@ -27,8 +27,8 @@ from fractions import Fraction
 from vlib.pipeline import Case
 
 PID = "C20"
-GEN = ["params"]
-LEAN = ["Ymq.Props.C20"]
+GEN = ["params", "nttcert"]
+LEAN = ["Ymq.Props.C20", "Ymq.Props.C20Ntt"]
 AUDIT = "Ymq.Audit.C20"
 PROFILES = ["release", "chk"]
 TIMEOUT = 60.0
@@ -55,6 +55,7 @@ THEOREMS = [
     "Ymq.C20.mzp_new_ok", "Ymq.C20.mzp_product_ok", "Ymq.C20.convolve_dispatch_total",
     "Ymq.C20.convolve_dispatch_packing_partial", "Ymq.C20.convolve_dispatch_size_one",
     "Ymq.C20.convolve_dispatch_packing_fails_size_one", "Ymq.C20.convolve_fsize_ok",
+    "Ymq.C20.ntt_certs_cover", "Ymq.C20.ntt_primes_prime", "Ymq.C20.ntt_field_with_root",
 ]
 
 RULE = ("first, in both tiers: consumer runs (SIQS, MPQS, QS) on both sides of every arm boundary of the parameter functions below 256 bits and at "
@@ -79,7 +80,7 @@ UNMODELLED = ["f64: `(x as f64).sqrt() as u32` is modelled as the integer square
               "MultiZmodP::new prologue, convolve dispatch, maxlarge/maxdouble of siqs/mpqs/classgroup) are tied by the "
               "translator only (their values are locals of larger functions); the packing requirements of `_convolve_modn` and "
               "the index requirements of `pm1_stage2_polyeval` are read from the code and stated in Props/C20.lean",
-              "primality of the NTT primes is checked by the Python oracle (deterministic Miller-Rabin), not proved in Lean"]
+              "primality of the NTT primes: proved (ntt_primes_prime: Pratt certificates generated from the source table by translate/nttcert.py, re-checked in the kernel, sound by Lucas' criterion); the Python oracle's Miller-Rabin stays as a cross-check"]
 HYPOTHESES = []
 CLAIM = ("Every parameter function of the sieves (QS, MPQS, SIQS, class group), the factor-base tables, both stage-2 tables with "
          "their nearest-row selection, the hard-wired (curves,B1,B2) arms, the NTT prime table with MultiZmodP::new's prime count "
